@@ -16,48 +16,22 @@ open PyGql PyGql.Coerce PyGql.Generated.Scalars
 
 private theorem coerceInt_sound {reg : Reg} {n : String} (hn : reg.get? n = some .int) {v : JV} {pv : PV}
     (h : coerceInt v = .ok pv) : Conforms reg (.named n) pv ∧ pv.isNone = false := by
-  cases v with
-  | null => simp [coerceInt] at h
-  | list l => simp [coerceInt] at h
-  | obj kvs => simp [coerceInt] at h
-  | bool b =>
-    simp only [coerceInt] at h
-    obtain ⟨rfl, _⟩ := rangeChecked_ok h; exact ⟨.intBool hn, rfl⟩
-  | int k =>
-    simp only [coerceInt] at h
-    obtain ⟨rfl, hr⟩ := rangeChecked_ok h; exact ⟨.int hn hr, rfl⟩
-  | float t i c =>
-    cases i with
-    | none => cases c <;> simp [coerceInt] at h
-    | some k =>
-      simp only [coerceInt] at h
-      obtain ⟨rfl, hr⟩ := rangeChecked_ok h; exact ⟨.int hn hr, rfl⟩
-  | str s a b =>
-    simp only [coerceInt] at h
-    split at h
-    · cases h
-    · split at h
-      · obtain ⟨rfl, hr⟩ := rangeChecked_ok h; exact ⟨.int hn hr, rfl⟩
-      · split at h
-        · obtain ⟨rfl, hr⟩ := rangeChecked_ok h; exact ⟨.int hn hr, rfl⟩
-        · cases h
+  unfold coerceInt at h
+  repeat' split at h
+  all_goals first
+    | (obtain ⟨rfl, hr⟩ := rangeChecked_ok h
+       first
+         | exact ⟨.intBool hn, rfl⟩
+         | exact ⟨.int hn hr, rfl⟩)
+    | cases h
 
 private theorem coerceFloat_sound {reg : Reg} {n : String} (hn : reg.get? n = some .float) {v : JV} {pv : PV}
     (h : coerceFloat v = .ok pv) : Conforms reg (.named n) pv ∧ pv.isNone = false := by
-  cases v with
-  | null => simp [coerceFloat] at h
-  | list l => simp [coerceFloat] at h
-  | obj kvs => simp [coerceFloat] at h
-  | bool b => simp only [coerceFloat] at h; obtain ⟨rfl, _⟩ := floatChecked_ok h; exact ⟨.float hn, rfl⟩
-  | int k => simp only [coerceFloat] at h; obtain ⟨rfl, _⟩ := floatChecked_ok h; exact ⟨.float hn, rfl⟩
-  | float t i c => simp only [coerceFloat] at h; obtain ⟨rfl, _⟩ := floatChecked_ok h; exact ⟨.float hn, rfl⟩
-  | str s a b =>
-    simp only [coerceFloat] at h
-    split at h
-    · cases h
-    · split at h
-      · obtain ⟨rfl, _⟩ := floatChecked_ok h; exact ⟨.float hn, rfl⟩
-      · cases h
+  unfold coerceFloat at h
+  repeat' split at h
+  all_goals first
+    | (obtain ⟨rfl, _⟩ := floatChecked_ok h; exact ⟨.float hn, rfl⟩)
+    | cases h
 
 private theorem pvOfJson_notNone {v : JV} (h : v.isNull = false) : (pvOfJson v).isNone = false := by
   cases v <;> simp_all [pvOfJson, PV.isNone, JV.isNull]
@@ -181,6 +155,9 @@ private theorem parseLiteral_sound {reg : Reg} {n : String} {k : NamedT} (hk : r
     all_goals first
       | (obtain ⟨rfl, _⟩ := floatChecked_ok h; exact ⟨.float hk, rfl⟩)
       | cases h
+      | (split at h
+         · obtain ⟨rfl, _⟩ := floatChecked_ok h; exact ⟨.float hk, rfl⟩
+         · cases h)
   | string =>
     cases l <;> simp only [parseLiteral] at h <;> split at h <;> try cases h
     all_goals exact ⟨.string hk, rfl⟩
